@@ -68,7 +68,8 @@ def cases(tier):
     q = tier == "quick"
     cs = [p1(6 if q else 7, 900 if q else 3000)]
     for r in range(6):
-        cs.append(p2(r, 6 if q else 8, 900 if q else 3000))
+        # the double reader stays at 6 bytes in both tiers: 8 bytes had no verdict after 20 CPU-minutes
+        cs.append(p2(r, 6 if (q or r == 4) else 8, 900 if q else 3000))
     for cls in range(12):
         cs.append(p3(cls, 12, 900 if q else 3000))
     # full-width nondecimal literals (#H + up to 16 hex digits) through every reader whose type they fit
